@@ -151,3 +151,12 @@ package ice
 //@   requires ruleMapping != nil
 //@   ensures an-empty-unpinned-rule-is-a-catch-all-of-every-family-it-allows: !added && !hasLocalAddr ==> (ruleMapping.allowIPv4 ==> ruleMapping.ipv4Mapping.valid && ruleMapping.ipv4Mapping.catchAllSet) && (ruleMapping.allowIPv6 ==> ruleMapping.ipv6Mapping.valid && ruleMapping.ipv6Mapping.catchAllSet)
 //@   ensures an-empty-rule-pinned-to-a-local-address-is-registered-for-that-address: !added && hasLocalAddr && ite(localIsIPv4, ruleMapping.allowIPv4, ruleMapping.allowIPv6) ==> rwValid(ruleMapping, localIsIPv4)
+
+// The documented empty rule ("drop" in replace mode, "no-op" in append mode) is a valid rule for the public
+// option as well: an absent External list is accepted and stays empty; what is rejected is a bad entry.
+//@ func sanitizeExternalIPs
+//@   props C19
+//@   opt nosafety
+//@   loop 1 invariant cleaned-entries-come-from-the-list: len(sanitized) <= rangeindex + 1 && rangeindex + 1 <= len(ips)
+//@   ensures an-empty-external-list-is-a-valid-rule: len(ips) == 0 ==> result1 == nil && len(result0) == 0
+//@   ensures never-more-entries-than-given: result1 == nil ==> len(result0) <= len(ips)
